@@ -556,12 +556,7 @@ func genConst(t *rapid.T, in *Instr) {
 	case KInt:
 		in.CI = GenInt(t)
 	case KFloat:
-		in.CF = GenFloat(t, false)
-		if in.CF == 0 && math.Signbit(in.CF) {
-			// a constant -0.0 is stored as 0.0 (equal value); the sign of a zero constant is
-			// not something the property speaks about
-			in.CF = 0.25
-		}
+		in.CF = GenFloat(t, false) // (-0.0 included: a constant is the value written, D24)
 	case KBool:
 		in.CB = rapid.Bool().Draw(t, "constb")
 	default:
